@@ -107,6 +107,10 @@ def case_st(draw):
             p = {"indices": draw(st.lists(st.sampled_from(labs), min_size=1, max_size=4)), "indexing": "label"}
         else:
             p = {"indices": draw(gen.position_list(n, 1, 4)), "indexing": "position"}
+            if draw(st.integers(0, 2)) == 0:
+                # numpy.take's modes: positions beyond either end are clipped or wrapped (negative ones included)
+                p["mode"] = draw(st.sampled_from(["clip", "wrap"]))
+                p["indices"] = draw(st.lists(st.integers(-n - 2, n + 2), min_size=1, max_size=4))
         p["by"] = draw(st.sampled_from(["name", "pos"]))
     elif op == "sort_axis":
         p = {"by": draw(st.sampled_from(["name", "pos"]))}
@@ -188,6 +192,8 @@ def enumerate_cases(tier):
             for by in ("pos", "name"):
                 ps = [("reduce", {"f": f, "by": by, "skipna": False}) for f in ("mean", "std", "var", "median", "sum")]
                 ps += [("take_axis", {"indices": [labs[-1], labs[0]], "indexing": "label", "by": by}), ("take_axis", {"indices": [1, 0, 1], "indexing": "position", "by": by}),
+                       ("take_axis", {"indices": [-1, 0, 9], "indexing": "position", "by": by, "mode": "clip"}),
+                       ("take_axis", {"indices": [-4, 1, 5], "indexing": "position", "by": by, "mode": "wrap"}),
                        ("sort_axis", {"by": by}),
                        ("reindex_axis", {"new": [labs[1], labs[0] + 100, labs[0]], "fill": "nan", "raise_error": False, "method": None, "as": "list", "by": by}),
                        ("reindex_axis", {"new": [labs[1], labs[0] + 100], "fill": -1, "raise_error": False, "method": None, "as": "axis", "by": by}),
@@ -357,8 +363,11 @@ def run_case(case):
         res = lib(lambda: getattr(ds, p["f"])(axis=axis_arg, **kw), what=what, sig=sig)
         check_result(res, expected, what, sig)
     elif op == "take_axis":
-        expected = [(k, lib(lambda: fresh[k].take_axis(list(p["indices"]), axis=d, indexing=p["indexing"]), what="per-variable " + what, sig=sig) if k in has else ds[k]) for k in keys]
-        res = lib(lambda: ds.take_axis(list(p["indices"]), axis=axis_arg, indexing=p["indexing"]), what=what, sig=sig)
+        kwm = {"mode": p["mode"]} if p.get("mode") else {}
+        if kwm:
+            cl.add("take_axis:mode")
+        expected = [(k, lib(lambda: fresh[k].take_axis(list(p["indices"]), axis=d, indexing=p["indexing"], **kwm), what="per-variable " + what, sig=sig) if k in has else ds[k]) for k in keys]
+        res = lib(lambda: ds.take_axis(list(p["indices"]), axis=axis_arg, indexing=p["indexing"], **kwm), what=what, sig=sig)
         check_result(res, expected, what, sig, ds_attrs=DS_ATTRS)
     elif op == "sort_axis":
         expected = [(k, lib(lambda: fresh[k].sort_axis(axis=d), what="per-variable " + what, sig=sig) if k in has else ds[k]) for k in keys]
